@@ -451,7 +451,15 @@ def r7_got_eval_fresh(ctx):
         need(isinstance(arg, ast.Name), 'C02.R7: evaluated-value argument of the check site is not a local name')
         defs = rr.rd.at(n, arg.id)
         inits = [d for d in defs if _is_not_evaled(d.value)]
-        from_exec = [d for d in defs if isinstance(d.value, ast.AST) and any(isinstance(x, ast.Call) and any(x is ec for (_, ec) in rr.exec_sites) for x in ast.walk(d.value))]
+        def exec_result(d, depth=0):
+            v = d.value
+            if isinstance(v, ast.AST) and any(isinstance(x, ast.Call) and any(x is ec for (_, ec) in rr.exec_sites) for x in ast.walk(v)):
+                return True
+            if isinstance(v, ast.Name) and depth < 3:
+                ds = rr.rd.at(d.node, v.id)
+                return bool(ds) and all(exec_result(dd, depth + 1) for dd in ds)       # a plain copy of an exec-site result
+            return False
+        from_exec = [d for d in defs if exec_result(d)]
         other = [d for d in defs if d not in inits and d not in from_exec]
         init_dom = [d for d in rr.rd.defs_of(arg.id) if _is_not_evaled(d.value) and dom.has(d.node) and dom.dominates(d.node, n)]
         ok = not other and bool(init_dom)
